@@ -169,7 +169,7 @@ func VerifC12Auth() {
 	mut := rt.Choose(6)
 	switch mut {
 	case 1: // relabelled: filed under another key / device than the signed bytes name
-		v.KeyPeerId = []string{"other-dev1", "k-dev2", "k"}[rt.Choose(3)]
+		v.KeyPeerId = []string{"other-dev1", "k-dev2", "k", "k-x-dev1", "k--dev1", "k-dev1-dev1", "k-k-dev1"}[rt.Choose(7)]
 	case 2:
 		v.PeerSignature = []byte("S(dev2)" + string(v.Value))
 	case 3:
